@@ -15,7 +15,6 @@ import (
 	"os/exec"
 	"path/filepath"
 	"sort"
-	"strconv"
 	"strings"
 
 	"github.com/prometheus/prometheus/model/labels"
@@ -23,6 +22,7 @@ import (
 	"github.com/prometheus/prometheus/tsdb/wlog"
 
 	"verif/internal/core"
+	"verif/internal/hcmark"
 	"verif/internal/tsdbhist"
 	"verif/internal/tsdbx"
 )
@@ -612,7 +612,7 @@ func checkDamaged(c *core.Case, cfg tsdbhist.Config, orig *tsdbhist.Exec, events
 	if os.Getenv("VERIF_C04_ONLY") != "" {
 		c.Logf("disk before the damaged open:\n%s", tsdbhist.DiskSummary(work))
 	}
-	preRecs := headChunkRecs(work)
+	preRecs := hcmark.HeadChunkRecs(work)
 	err := x.OpenDB()
 	if err != nil {
 		c.Count("opens_failed", 1)
@@ -672,9 +672,9 @@ func checkDamaged(c *core.Case, cfg tsdbhist.Config, orig *tsdbhist.Exec, events
 			}
 		}
 		if k, t, ok := parseMissing(diff); ok && orig.IsMaybeOOO(k, t) && d.tg.class != "wal" && d.tg.class != "checkpoint" {
-			postRecs, markers := headChunkRecs(work), wblMarkers(work)
+			postRecs, markers := hcmark.HeadChunkRecs(work), hcmark.WBLMarkers(work)
 			for _, ref := range seriesRefsOf(x, k) {
-				if danglingMarkerHonoured(preRecs, postRecs, markers[ref]) {
+				if hcmark.DanglingMarkerHonoured(preRecs, postRecs, markers[ref]) {
 					kind = "ooo-sample-lost-to-wbl-marker-of-absent-chunk"
 				}
 			}
@@ -712,7 +712,7 @@ func checkDamaged(c *core.Case, cfg tsdbhist.Config, orig *tsdbhist.Exec, events
 	}
 	c.Logf("before second restart:\n%s\n%s", x.Diagnose(), tsdbhist.DiskSummary(work))
 	var preRecs2 map[uint64]bool
-	x.OnRestartClosed = func() { preRecs2 = headChunkRecs(work) }
+	x.OnRestartClosed = func() { preRecs2 = hcmark.HeadChunkRecs(work) }
 	if err := x.Apply(tsdbhist.Op{Kind: "restart"}); err != nil {
 		c.ViolateOncef("restart-after-repair-failed", "%s\n%v", what, err)
 		return
@@ -724,9 +724,9 @@ func checkDamaged(c *core.Case, cfg tsdbhist.Config, orig *tsdbhist.Exec, events
 			for _, s := range firstOpen[k] {
 				had = had || s.T == t
 			}
-			postRecs, markers := headChunkRecs(work), wblMarkers(work)
+			postRecs, markers := hcmark.HeadChunkRecs(work), hcmark.WBLMarkers(work)
 			for _, ref := range seriesRefsOf(x, k) {
-				if had && danglingMarkerHonoured(preRecs2, postRecs, markers[ref]) {
+				if had && hcmark.DanglingMarkerHonoured(preRecs2, postRecs, markers[ref]) {
 					kind = "ooo-sample-lost-to-wbl-marker-of-absent-chunk"
 				}
 			}
@@ -932,73 +932,6 @@ func walSamples(dir string) map[string]map[int64]bool {
 		}
 	}
 	return out
-}
-
-// headChunkRecs returns the refs (file sequence<<32 | offset) of the chunk records in the
-// head-chunk files of dir, as far as each file parses.
-func headChunkRecs(dir string) map[uint64]bool {
-	out := map[uint64]bool{}
-	ents, _ := os.ReadDir(filepath.Join(dir, "chunks_head"))
-	for _, en := range ents {
-		seq, err := strconv.ParseUint(en.Name(), 10, 32)
-		if err != nil {
-			continue
-		}
-		b, err := os.ReadFile(filepath.Join(dir, "chunks_head", en.Name()))
-		if err != nil {
-			continue
-		}
-		bs := headChunkBounds(b)
-		for _, off := range bs[:len(bs)-1] {
-			out[seq<<32|uint64(off)] = true
-		}
-	}
-	return out
-}
-
-// wblMarkers returns, per series ref, the chunk refs named by the m-map markers in the WBL.
-func wblMarkers(dir string) map[uint64][]uint64 {
-	out := map[uint64][]uint64{}
-	sr, err := wlog.NewSegmentsReader(filepath.Join(dir, "wbl"))
-	if err != nil {
-		return out
-	}
-	defer sr.Close()
-	dec := record.NewDecoder(labels.NewSymbolTable(), tsdbx.NopLogger())
-	r := wlog.NewReader(sr)
-	for r.Next() {
-		rec := r.Record()
-		if dec.Type(rec) == record.MmapMarkers {
-			ms, err := dec.MmapMarkers(rec, nil)
-			if err != nil {
-				break
-			}
-			for _, m := range ms {
-				out[uint64(m.Ref)] = append(out[uint64(m.Ref)], uint64(m.MmapRef))
-			}
-		}
-	}
-	return out
-}
-
-// danglingMarkerHonoured is the witness predicate of the known finding
-// ooo-sample-lost-to-wbl-marker-of-absent-chunk: the WBL holds an m-map marker of the series
-// whose chunk record is not in the head-chunk files, while a chunk record that the open loaded
-// (in the files before the open and still there after it) has a larger ref.  WBL replay honours
-// a marker when its ref is not beyond the newest loaded chunk, and then drops the out-of-order
-// samples replayed so far, although the chunk that should hold them does not exist.
-func danglingMarkerHonoured(pre, post map[uint64]bool, markers []uint64) bool {
-	for _, m := range markers {
-		if pre[m] && post[m] {
-			continue
-		}
-		for r := range pre {
-			if post[r] && r > m {
-				return true
-			}
-		}
-	}
-	return false
 }
 
 func seriesRefsOf(x *tsdbhist.Exec, k string) []uint64 {
